@@ -42,6 +42,7 @@ type Exec struct {
 	specMode      bool            // evaluating a contract expression: no obligations, no assumptions
 	defSeen       map[ssa.Value]bool
 	finalCells    map[ssa.Value]Value
+	remembered    map[string]bool
 	nWF           int // number of hypotheses before the function's own requires were assumed
 	extraRequires []*SExpr
 	noReturnOK    bool
@@ -127,7 +128,7 @@ func (e *Exec) safe(kind string, st *State, goal *Term, pos token.Pos) {
 
 func NewExec(P *Program, C *Contracts, fn *ssa.Function) *Exec {
 	e := &Exec{P: P, C: C, fn: fn, ctx: newVCtx(), vals: map[ssa.Value]Value{}, params: map[string]Value{}, lets: map[string]Value{},
-		counts: map[string]int{}, callOrd: map[string]int{}, defSeen: map[ssa.Value]bool{}, finalCells: map[ssa.Value]Value{}}
+		counts: map[string]int{}, callOrd: map[string]int{}, defSeen: map[ssa.Value]bool{}, finalCells: map[ssa.Value]Value{}, remembered: map[string]bool{}}
 	e.topName = funcKey(fn)
 	e.fc = C.lookup(e.topName)
 	if e.fc == nil && fn.Origin() != nil {
@@ -181,7 +182,23 @@ func (e *Exec) Verify() (obls []*Obligation, err error) {
 	e.initGhost(st)
 	e.entry = st.clone()
 	e.nWF = len(e.ctx.hyps)
+	if pk := pkgOf(fn); pk != nil && !strings.HasPrefix(fn.Name(), "init") {
+		for _, gi := range e.C.GlobalInvs {
+			if gi.Pkg == pk.Path() {
+				genv := e.newEnv(st, e.entry)
+				genv.polarity = polAssume
+				e.ctx.assume(genv.evalBool(gi.Clause.Expr))
+				e.ctx.assumes["package-level "+gi.Global+" is written only by init(): "+gi.Clause.Text]++
+			}
+		}
+	}
 	if e.fc != nil {
+		// remembered names are unconstrained until the program point that defines them
+		for _, sa := range e.fc.Asserts {
+			if sa.LetName != "" {
+				e.remembered[sa.LetName] = true
+			}
+		}
 		env := e.newEnv(st, e.entry)
 		for _, l := range e.fc.Lets {
 			e.lets[l.Name] = env.eval(l.Expr)
@@ -202,6 +219,9 @@ func (e *Exec) Verify() (obls []*Obligation, err error) {
 	// loop clause a loop
 	if e.fc != nil {
 		for ai, sa := range e.fc.Asserts {
+			if sa.LetName != "" {
+				continue // a remembered value that is never defined stays false
+			}
 			if e.counts[fmt.Sprintf("site:%d:%s", ai, sa.When)] == 0 {
 				return nil, fmt.Errorf("%s: contract clause '%s %s: %s' matches no program point", shortKey(e.topName), sa.When, sa.Pattern, sa.Clause.Text)
 			}
